@@ -335,7 +335,7 @@ R.contract(
                                                                 "for p in self.parameters)",
         "its_value_is_what_its_own_expression_evaluates_to": "all((is_instance(result[p.container_name][p.name].value, 'Ok') and result[p.container_name][p.name].value.ok() is evaluated_value(p.expression)) "
                                                              "if evaluated_ok(p.expression) else is_instance(result[p.container_name][p.name].value, 'Err') for p in self.parameters)",
-        "each_expression_evaluated_once_as_a_plain_expression": "length(ghost('evaluated')) == length(self.parameters) and all(evaluated_nested_flag(p.expression) == [False] for p in self.parameters)",
+        "each_expression_is_evaluated_as_a_plain_expression": "all(length(evaluated_nested_flag(p.expression)) >= 1 and all(not f for f in evaluated_nested_flag(p.expression)) for p in self.parameters)",
         "nothing_else_is_extracted": "sum(length(result[c]) for c in result) == length(self.parameters)",
     },
     replayable=False,
@@ -349,7 +349,7 @@ R.contract(
     ensures={
         "no_request_body_in_the_link_means_none": "iff(result is None, self.body is NOT_SET_())",
         # requestBody literals / expressions / nested objects: evaluated as a NESTED expression
-        "body_is_what_the_link_body_evaluates_to_nested": "implies(self.body is not NOT_SET_(), result.definition is self.body and evaluated_nested_flag(self.body) == [True] and "
+        "body_is_what_the_link_body_evaluates_to_nested": "implies(self.body is not NOT_SET_(), result.definition is self.body and length(evaluated_nested_flag(self.body)) >= 1 and all(f for f in evaluated_nested_flag(self.body)) and "
                                                           "((is_instance(result.value, 'Ok') and result.value.ok() is evaluated_value(self.body)) if evaluated_ok(self.body) else is_instance(result.value, 'Err')))",
     },
     replayable=False,
